@@ -21,7 +21,8 @@ var pnftURLs = []string{
 // idPool: identifiers that are prefixes/extensions of one another. With adversarial=true it
 // also contains separators, NUL bytes, invalid UTF-8 and very long ids.
 func (g *G) idPool(adversarial bool) []string {
-	ids := []string{"a", "ab", "abc", "b", "A", "a/", "a b", "a-1"}
+	// " a" / "a\t": equal to "a" after trimming white space, distinct as identifiers
+	ids := []string{"a", "ab", "abc", "b", "A", "a/", "a b", "a-1", " a", "a\t"}
 	if adversarial {
 		ids = append(ids, strings.Repeat("z", 300), "a/b", "/", "é")
 		if !g.W.Opt.Open["C08-invalid-utf8-export"] {
